@@ -21,7 +21,7 @@ def sweep_bounds(tier):
 def sweep_step(e, tier="quick", usage=False, others=None, crowd=0, relaxed=False):
     bd = sweep_bounds(tier)
     x = build(e, crowd=crowd, **usage_cfg(e, usage), acting=["none"], relaxed=relaxed,
-              others=others or ["none", "sub0s0", "sub1s0", "idle0"], **bd)
+              others=others or ["none", "sub0s0", "sub1s0", "idle0", "sub0s0+sub1s0"], **bd)
     w, pre = x.w, x.pre
     E_ = TAP.CHANNEL_EXPIRATION_TIME
     P_ = TAP.EXPIRATION_CHECK_PERIOD
